@@ -111,6 +111,9 @@ def record(rng, ngraph, nillegal):
         if i % 5 != 4:
             u = rng.randrange(n)
             w = rng.choice([x for x in range(n) if x // 4 != (4 * u % n) // 4])
+            if i % 3 == 0:                       # right next to the legal successor block
+                first = (4 * u) % n
+                w = rng.choice([(first - 1) % n, (first - 2) % n, (first - 3) % n, (first + 4) % n, (first + 5) % n])
             m[u, w] = 1
         r = impl.call(dsw.adjacency_matrix_to_accessor, m)
         cases.append({"kind": "illegal", "k": k, "ones": [[int(u), int(w)] for u, w in zip(*numpy.nonzero(m))], "outcome": _outcome(r)})
